@@ -463,6 +463,16 @@ static void case_statistics(Rng& rng, uint64_t index)
 			dp.push_back(DataPoint(x, w)), dp2.push_back(DataPoint(x, 7.0 * w));
 		std::vector<double> wa = Weighted_Average(dp), wa2 = Weighted_Average(dp2);
 		require("weighted-average-returns-mean-and-error", wa.size() == 2 && wa2.size() == 2, [&] { return J().i("size", (long long) wa.size()); });
+		// the list is handed over by non-const reference: the caller goes on using it (merging samples, averaging again), so it has to come back as it was
+		// (seeded change C19-r7m1 normalised the weights in the caller's list)
+		{
+			bool same = dp.size() == d.size();
+			for(size_t i = 0; same && i < d.size(); i++)
+				same = same_bits(dp[i].value, d[i]) && same_bits(dp[i].weight, w);
+			require("weighted-average-leaves-the-list-as-it-was", same, [&] { return J().d("weight_given", w).d("first_weight_after", dp.empty() ? 0.0 : dp[0].weight).d("first_value_after", dp.empty() ? 0.0 : dp[0].value); });
+			std::vector<double> again = Weighted_Average(dp);
+			require("weighted-average-leaves-the-list-as-it-was", again.size() == 2 && wa.size() == 2 && same_bits(again[0], wa[0]) && same_bits(again[1], wa[1]), [&] { return J().d("first_call", wa.empty() ? 0.0 : wa[0]).d("second_call", again.empty() ? 0.0 : again[0]); });
+		}
 		if(wa.size() == 2 && wa2.size() == 2)
 		{
 			judge("equal-weights-give-the-plain-mean", std::fabs(wa[0] - mean), 4 * tol_m, [&] { return J().d("weighted", wa[0]).d("mean", mean); });
